@@ -16,7 +16,7 @@ from ..main import Report
 
 PROP = 'C05'
 PARTS = ('crash',)
-QUICK = (52, 40)
+QUICK = (36, 30)
 THOROUGH = (600, 400)
 
 
@@ -25,8 +25,8 @@ def run(tier: str) -> Report:
     ncases, max_points = QUICK if tier == 'quick' else THOROUGH
     jobs = [(PROP, i, PARTS, max_points) for i in range(ncases)]
     # a second family: imports from another container with small pack targets and cache budgets that force several flushes
-    jobs += [(PROP, i, PARTS, max_points, 'packall') for i in range(10 if tier == 'quick' else ncases // 4)]
-    jobs += [(PROP, i, PARTS, max_points, 'import') for i in range(14 if tier == 'quick' else ncases // 3)]
+    jobs += [(PROP, i, PARTS, max_points, 'packall') for i in range(8 if tier == 'quick' else ncases // 4)]
+    jobs += [(PROP, i, PARTS, max_points, 'import') for i in range(10 if tier == 'quick' else ncases // 3)]
     ctx = mp.get_context('fork')
     with ctx.Pool(processes=min(14, os.cpu_count() or 4)) as pool:
         results = pool.map(crashlab.run_lab, jobs, chunksize=1)
